@@ -300,6 +300,9 @@ func isOutOfOrderErr(err error) bool {
 }
 
 func checkC08(c *Case, s *Stats) error {
+	if c.Gen == "concurrent-round" {
+		return concurrentRound(c.Block, s)
+	}
 	keys := c.keys()
 	asc := strictlyAscending(keys)
 	maxLen := 0
